@@ -5,13 +5,14 @@ from props.C01 import gp
 def obligations(tier):
     q = tier == 'quick'
     obs = []
-    for fl in ('mb', 'memb', 'qsbr', 'bp'):
+    for fl in (('mb', 'qsbr') if q else ('mb', 'memb', 'qsbr')):
         obs += gp('%s_1r' % fl, fl, ['updater', 'reader'], 3, faults=1, live=True, safe=False,
                   desc='%s: synchronize_rcu completes once the reader has left; futex waits may return spuriously / EINTR once; deadlock detector after every round' % fl)
-    obs += gp('mb_1r_tso1', 'mb', ['updater', 'reader'], 3, tso=1, faults=1, live=True, safe=False,
+    if not q:
+      obs += gp('mb_1r_tso1', 'mb', ['updater', 'reader'], 3, tso=1, faults=1, live=True, safe=False,
               desc='mb: the sleep/wake handshake (dec futex; mb; rescan  vs  store ctr; mb; load futex) under x86-TSO store buffers of depth 1')
     if not q:
-        obs += gp('mb_2upd', 'mb', ['updater', 'updater2', 'reader'], 3, faults=1, live=True, safe=False,
+        obs += gp('mb_2upd', 'mb', ['updater', 'reader', 'updater2'], 2, faults=1, live=True, safe=False,
                   desc='mb: two concurrent synchronize_rcu callers (second may be merged and woken by the leader) and one reader')
         obs += gp('mb_1r_enosys', 'mb', ['updater', 'reader'], 3, live=True, safe=False, futex_enosys=1,
                   desc='mb: futex() returns ENOSYS, compat_futex_async fallback')
@@ -25,3 +26,4 @@ ASSUMPTIONS = ['futex(2) model: WAIT atomically re-checks the word; WAKE wakes u
 LEVEL_TEXT = ('Bounded model checking of the real wait_for_readers/wait_gp/wake_up_gp handshake: after any prefix of R symbolic rounds (with futex faults), every thread finishes when run '
               'in turn; a state in which every unfinished thread is blocked is reported as deadlock / lost wake-up.')
 LEVEL_NOTE = 'Trusted: clang-14 lowering, irseq translator, asm table, TSO model, futex/mutex stubs, CBMC/MiniSat.'
+NA_REASON = 'check built but not yet validated on the unchanged tree within the time/memory caps; not claimed'
